@@ -2,6 +2,7 @@ package c16
 
 import (
 	"fmt"
+	"os"
 	"sort"
 	"strings"
 	"testing"
@@ -19,7 +20,9 @@ var stats = vlib.NewStats("C16")
 func TestMain(m *testing.M) {
 	// the process-wide instance (what the CLI uses, and what T.Time always books into) exists in every
 	// f1 process; here with iteration metrics on and no static labels
-	metrics.Init(true)
+	if !strings.Contains(strings.Join(os.Args, " "), "TestProcess_") {
+		metrics.Init(true)
+	}
 	vlib.Main(m, stats)
 }
 
